@@ -1,6 +1,6 @@
 From Coq Require Import List NArith Bool Sorted.
 From V.gen Require Consts.
-From V.Ts Require Import Model Proofs Answers Report ReportProofs ReportDead ReportDeadProofs.
+From V.Ts Require Import Model Proofs Answers Extra Exact Multi MultiProofs Report ReportProofs ReportDead ReportDeadProofs.
 Import ListNotations.
 Open Scope N_scope.
 From V.C08 Require Import Properties.
@@ -125,6 +125,11 @@ Check (C08_closed_reaches_live :
   forall p ch', nth_error (r_ch (d_s d')) p = Some ch' ->
     exists ch, nth_error (r_ch (d_s d)) p = Some ch /\
                ch' = if is_dead d (N.of_nat p) then ch else send_one (r_cap (d_s d)) c (IClosed c) ch).
+Check (C08_established_closed_paired :
+  forall l nproto cap p ch,
+  nth_error (r_ch (d_s (dfinal (dinit nproto cap) l))) p = Some ch ->
+  is_dead (dfinal (dinit nproto cap) l) (N.of_nat p) = false ->
+  filter is_conn_item (racc ch) = conn_reports l (drun (dinit nproto cap) l)).
 Check (C08_no_connection_given_up :
   forall d o, d_gone d = [] -> d_gone (fst (dstep d o)) = []).
 Check (C08_established_before_fix_refuted :
@@ -150,6 +155,54 @@ Check (C08_no_closed_without_report :
   nth_error (r_ch (d_s d)) p = Some ch -> nth_error (r_ch (d_s (fst (dstep d o)))) p = Some ch' ->
   (forall b, o <> DBase (RClosed b)) ->
   ~ In (IClosed c) (racc ch) -> ~ In (IClosed c) (racc ch')).
+Check (C08_alternation_unconditional :
+  forall tr s q, alternates (hc (s_ctxs s) q) (conn_evs q (concat (run s tr)))).
+Check (C08_panic_exactly_unknown_peer :
+  forall s dt i,
+  In OPanic (snd (step s dt i)) <-> exists p c, i = EClosed p c /\ find_ctx p (s_ctxs s) = None).
+Check (C08_no_panic_in_contract :
+  forall ka T n0 tr,
+  feasible 2 env0 (init ka T n0) tr = true -> ~ In OPanic (concat (run (init ka T n0) tr))).
+Check (C08_third_connection_ignored :
+  forall s p c cx h,
+  find_ctx p (s_ctxs s) = Some cx -> c_sec cx = Some h ->
+  snd (handle_ev s (EEst p c)) = [] /\ ka_activity_of s (EEst p c) = None /\
+  s_ctxs (fst (handle_ev s (EEst p c))) = s_ctxs s /\ s_last (fst (handle_ev s (EEst p c))) = s_last s /\
+  s_timers (fst (handle_ev s (EEst p c))) = s_timers s).
+Check (C08_closed_unknown_id_drops_secondary :
+  forall s p c cx,
+  find_ctx p (s_ctxs s) = Some cx -> h_id (c_prim cx) <> c ->
+  snd (handle_ev s (EClosed p c)) = [] /\
+  find_ctx p (s_ctxs (fst (handle_ev s (EClosed p c)))) = Some (mkCtx p (c_prim cx) None)).
+Check (C08_force_close_invisible :
+  forall s dt p fs fp, fst (step s dt (EForce p fs fp)) = fst (step s dt ENone)).
+Check (C08_force_close_targets :
+  forall e s dt i c,
+  conn_inv e (s_ctxs s) (s_pend s) -> In (OForce c) (snd (step s dt i)) ->
+  exists p fs fp, i = EForce p fs fp /\ In c (live_of p (e_live e))).
+Check (C08_force_close_result :
+  forall e s dt p fs fp r,
+  conn_inv e (s_ctxs s) (s_pend s) -> In (ORetF r) (snd (step s dt (EForce p fs fp))) ->
+  (r = 1 <-> live_of p (e_live e) = []) /\
+  (r = 0 -> exists c, hd_error (live_of p (e_live e)) = Some c /\ In (OForce c) (snd (step s dt (EForce p fs fp)))) /\
+  (r = 3 -> fp = true) /\ r <= 3).
+Check (C08_multi_stream_wellformed :
+  forall tr cap cfg n0 q k,
+  mfeasible 2 env0 (minit cap cfg n0) tr = true -> (k < length cfg)%nat ->
+  exists b, wf_run false (pevs q (comp_outs k (mrun (minit cap cfg n0) tr))) = Some b).
+Check (C08_multi_ids_fresh :
+  forall tr m,
+  m_next m + mdraws tr < ID_MOD ->
+  StronglySorted N.lt (flat_map mret (mrun m tr)) /\
+  Forall (fun i => m_next m <= i) (flat_map mret (mrun m tr))).
+Check (C08_multi_view_exact :
+  forall m dt e s c,
+  In s (m_svcs (fst (mstep m dt e))) -> find_ch c (s_chans s) <> None ->
+  strong s c = mstrong (m_svcs (fst (mstep m dt e))) c).
+Check (C08_multi_commands_fifo :
+  forall tr m c,
+  forallb (fun de => negb (closes c (snd de))) tr = true ->
+  taken c tr (mrun m tr) ++ qfind c (m_q (mfinal m tr)) = qfind c (m_q m) ++ issued c (mrun m tr)).
 Check (C08_needs_two_per_peer :
   exists tr q,
   feasible 3 env0 (init true 1000 0) tr = true /\
